@@ -1,6 +1,7 @@
 import BalmProofs.JudgeSpec
 import Balm.Impl.Diagram
 import Balm.Impl.Block
+import Balm.Impl.ASeeds
 import Balm.Full
 /-!
 # C04 – lazily built diagrams are always a faithful part of the full diagram
@@ -321,6 +322,70 @@ theorem expandBlock_inv (c : Ctx n) (d : Diag n) (sz : Option Nat) (h : StrictIn
     StrictInv c (expandBlock c d sz).1 :=
   blockLoop_inv c sz _ d _ h
 
+theorem seedLoop_inv (c : Ctx n) (sz : Option Nat) :
+    ∀ (fuel : Nat) (d : Diag n) (seen : List Nat) (stack : List (Nat × Option (List Nat))) (found : List Bool),
+      StrictInv c d → StrictInv c (seedLoop c sz fuel d seen stack found).1 := by
+  intro fuel
+  induction fuel with
+  | zero => intro d seen stack found h; simpa [seedLoop] using h
+  | succ fuel ih =>
+    intro d seen stack found h
+    cases stack with
+    | nil => simpa [seedLoop] using h
+    | cons top stack =>
+      obtain ⟨node, succ?⟩ := top
+      have hstep : ∀ (d : Diag n) (succ : List Nat), StrictInv c d →
+          StrictInv c (match seedScan d seen succ found with
+            | ([], found') => seedLoop c sz fuel d seen stack found'
+            | (s :: rest, found') => seedLoop c sz fuel d (s :: seen) ((s, none) :: (node, some rest) :: stack) found').1 := by
+        intro d succ hd
+        cases hx : seedScan d seen succ found with
+        | mk succ' found' =>
+          cases succ' with
+          | nil => exact ih _ _ _ _ hd
+          | cons s rest => exact ih _ _ _ _ hd
+      cases succ? with
+      | some succ =>
+        simp only [seedLoop]
+        have := hstep d succ h
+        cases hx : seedScan d seen succ found with
+        | mk succ' found' =>
+          rw [hx] at this
+          cases succ' with
+          | nil => simpa using this
+          | cons s rest => simpa using this
+      | none =>
+        simp only [seedLoop]
+        split
+        · exact h
+        · have h' := expandNode_inv c d node h
+          cases hx : expandNode c d node with
+          | mk d' okk =>
+            rw [hx] at h'
+            simp only
+            split
+            · exact h'
+            · have := hstep d' (sortNat (d'.succs node)) h'
+              cases hy : seedScan d' seen (sortNat (d'.succs node)) found with
+              | mk succ' found' =>
+                rw [hy] at this
+                cases succ' with
+                | nil => simpa using this
+                | cons s rest => simpa using this
+
+/-- attractor-seed expansion preserves the strict invariant, whatever the solvers answer -/
+theorem expandASeeds_inv (c : Ctx n) (d : Diag n) (sz : Option Nat) (allMins : List (Space n)) (found : List Bool)
+    (h : StrictInv c d) : StrictInv c (expandASeeds c d sz allMins found).1 := by
+  unfold expandASeeds
+  have h1 := expandMinimal_inv c d 0 sz allMins h
+  cases hx : expandMinimalWith c d 0 sz false allMins with
+  | mk d1 o1 =>
+    rw [hx] at h1
+    simp only
+    cases o1 with
+    | err => exact h1
+    | ok b => exact seedLoop_inv c sz _ d1 _ _ _ h1
+
 /-- the plain operations of the model -/
 inductive PlainOp (n : Nat) where
   | one (i : Nat)
@@ -329,6 +394,7 @@ inductive PlainOp (n : Nat) where
   | target (t : Space n) (sz : Option Nat)
   | minimal (start : Nat) (sz : Option Nat) (solverAnswer : List (Space n))
   | block (sz : Option Nat)
+  | aseeds (sz : Option Nat) (minAnswer : List (Space n)) (solverVerdicts : List Bool)
 
 def runOp (c : Ctx n) (d : Diag n) : PlainOp n → Diag n
   | .one i => (expandNode c d i).1
@@ -337,10 +403,11 @@ def runOp (c : Ctx n) (d : Diag n) : PlainOp n → Diag n
   | .target t sz => (expandToTarget c d t sz).1
   | .minimal s sz ans => (expandMinimalWith c d s sz false ans).1
   | .block sz => (expandBlock c d sz).1
+  | .aseeds sz ms found => (expandASeeds c d sz ms found).1
 
 /-- **C04 for the executable model.** For every network, every stable-motif limit and every history
-    of plain operations – single-node expansion, BFS, DFS, target-directed, minimal-space and block
-    expansion (without source shortcuts) with arbitrary start nodes, limits, targets and solver answers – the strict invariant
+    of plain operations – single-node expansion, BFS, DFS, target-directed, minimal-space, attractor-seed
+    and block expansion (without source shortcuts) with arbitrary start nodes, limits, targets and solver answers – the strict invariant
     holds in the resulting diagram (hence at every moment of the history). -/
 theorem plain_history_inv (N : Net n) (L : Nat) (ops : List (PlainOp n)) :
     StrictInv (Ctx.mk' N L) (ops.foldl (runOp (Ctx.mk' N L)) (initDiag (Ctx.mk' N L))) := by
@@ -359,6 +426,7 @@ theorem plain_history_inv (N : Net n) (L : Nat) (ops : List (PlainOp n)) :
       | target t sz => exact expandToTarget_inv _ d t sz h
       | minimal s sz ans => exact expandMinimal_inv _ d s sz ans h
       | block sz => exact expandBlock_inv _ d sz h
+      | aseeds sz ms found => exact expandASeeds_inv _ d sz ms found h
   exact this ops _ (init_inv N L)
 
 end Balm.Props.C04
